@@ -298,12 +298,13 @@ def _empty(eng, lang, timeout_ms):
 
 def _hosts(eng, v):
     """Decomposed strings (targets of the engine's structural splits) in which variable v occurs exactly once."""
-    out, seen = [], set()
+    out, seen, alive = [], set(), []
 
     def consider(full):
         if full.get_id() in seen:
             return
         seen.add(full.get_id())
+        alive.append(full)          # AST ids are only unique among live terms
         parts = flatten(full)
         if sum(1 for p in parts if p.eq(v)) == 1 and len(parts) > 1:
             out.append(full)
